@@ -11,8 +11,11 @@ REQUIRED_COUNTERS = META[PID]['required']
 
 
 def plan(tier):
-    return dict(cases=3000 if tier == "quick" else 60000, shards=16, timeout=600 if tier == 'quick' else 3000)
+    return dict(cases=6000 if tier == "quick" else 60000, shards=16, timeout=600 if tier == 'quick' else 3000)
 
 
 def run_case(acc, rnd, tier, case):
-    execmon.run_case(acc, rnd, tier, case, MODE, PID, gen_kw=META[PID].get('gen'))
+    modes = META[PID]['modes']
+    mode, _, kw = rnd.choices(modes, weights=[m[1] for m in modes])[0]
+    acc.count('mode_' + mode)
+    execmon.run_case(acc, rnd, tier, case, mode, PID, gen_kw=kw)
